@@ -48,8 +48,17 @@ func RunE1(spec E1Spec) int {
 	var samples []any
 	engineErr := ""
 	otherProps := map[string]int{}
-	for _, fam := range spec.Families {
-		st := explore.Search(pool, fam, explore.Options{Prop: spec.Prop, Deadline: c.Deadline, Seed: c.Seed, Verbose: os.Getenv("VERIF_VERBOSE") != ""})
+	for fi, fam := range spec.Families {
+		// the remaining budget is shared evenly among the families still to run
+		deadline := c.Deadline
+		if !deadline.IsZero() {
+			left := time.Until(deadline)
+			if left < 0 {
+				left = 0
+			}
+			deadline = time.Now().Add(left / time.Duration(len(spec.Families)-fi))
+		}
+		st := explore.Search(pool, fam, explore.Options{Prop: spec.Prop, Deadline: deadline, Seed: c.Seed, Verbose: os.Getenv("VERIF_VERBOSE") != ""})
 		var alpha []string
 		if p, ok := fam.Params.(interface{ AlphabetStrings() []string }); ok {
 			alpha = p.AlphabetStrings()
